@@ -528,3 +528,11 @@ Proof.
   - intros i a par d Hin. pose proof (inv_depth _ s HI) as Hg. rewrite Forall_forall in Hg. exact (Hg _ Hin).
   - intros i a par d a' par' d' Hin Hin'. exact (inv_adj _ s HI _ _ Hin Hin' eq_refl).
 Qed.
+
+(* the hypotheses are satisfiable by a document with skipped and decreasing levels over two pages *)
+Example bookmark_example :
+  positive_pages [[(1, 10); (4, 11)]; [(2, 12); (3, 13); (6, 14); (1, 15)]] /\
+  doc_tree [[(1, 10); (4, 11)]; [(2, 12); (3, 13); (6, 14); (1, 15)]] =
+  inr [Node 0 (0%nat, 10) [Node 1 (0%nat, 11) []; Node 2 (1%nat, 12) [Node 3 (1%nat, 13) [Node 4 (1%nat, 14) []]]];
+       Node 5 (1%nat, 15) []].
+Proof. split; [repeat constructor; cbn; lia|vm_compute; reflexivity]. Qed.
